@@ -171,6 +171,11 @@ def case_parallel(ctx, spec, rng, lines, checks):
         return
     if backend and log:
         check_passthrough(ctx, "ParallelUtilityEstimationWrapper", w, inner, kw, log, case)
+    if spec.name in ALIGNED or spec.name not in RNG_CONSUMING:
+        check_without_utilities(ctx, "ParallelUtilityEstimationWrapper",
+                                lambda: ParallelUtilityEstimationWrapper(query_strategy=spec.make(seed), n_jobs=1, random_state=seed),
+                                (data["X"], data["y"]), dict(candidates=None if cand is None else np.array(cand).copy(), batch_size=1, **spec.kwargs(data, seed)),
+                                q, case) if n_jobs == 1 else None
     if spec.name in ALIGNED:
         # a RandomState instance given as random_state must not be consumed by a query (it is deep-copied), so the
         # same call repeated gives the same selection as the wrapped strategy does
@@ -213,6 +218,27 @@ def case_parallel(ctx, spec, rng, lines, checks):
 
 def case_summary(case):
     return {k: v for k, v in case.items() if k not in ("X", "y", "candidates", "rng_state")}
+
+
+RNG_CONSUMING = set()   # inner strategies whose selection consumes random numbers before the wrapper's tie-break (none needed: n_jobs=1 twins)
+
+
+def check_without_utilities(ctx, name, make_wrapper, args, kwargs, q_with, case):
+    """`return_utilities=False` is another path through a wrapper's tail (index translation happens with or without
+    the utilities): a freshly built wrapper with equal parameters must select the same samples."""
+    try:
+        with _pool.alarm(120), warnings.catch_warnings(), np.errstate(all="ignore"):
+            warnings.simplefilter("ignore")
+            q2 = make_wrapper().query(*args, return_utilities=False, **kwargs)
+    except Exception as e:  # noqa: BLE001
+        ctx.violate(f"C20/{name}.query/raises-without-utilities:{type(e).__name__}",
+                    f"{name}.query(return_utilities=False) raised {type(e).__name__}: {str(e)[:100]} although the same call with utilities succeeds", case)
+        return
+    ctx.count("without_utilities_compared")
+    a, b = [int(i) for i in np.asarray(q_with).ravel()], [int(i) for i in np.asarray(q2).ravel()]
+    if a != b:
+        ctx.violate(f"C20/{name}.query/selection-differs-without-utilities",
+                    f"{name}: return_utilities=False selects {b}, the same call with return_utilities=True selects {a}", case)
 
 
 def case_subsample(ctx, spec, rng, lines, checks):
@@ -259,6 +285,9 @@ def case_subsample(ctx, spec, rng, lines, checks):
             ctx.violate(f"C20/SubSamplingWrapper.query/raises:{type(e).__name__}",
                         f"sub-sampling wrapper around {spec.name} raised {type(e).__name__}: {str(e)[:100]}", case)
             return
+    check_without_utilities(ctx, "SubSamplingWrapper",
+                            lambda: SubSamplingWrapper(query_strategy=spec.make(seed), max_candidates=mc, exclude_non_subsample=excl, random_state=seed),
+                            (data["X"], data["y"]), dict(candidates=None if cand is None else np.array(cand).copy(), batch_size=int(b), **spec.kwargs(data, seed)), q, case)
     # the sub-sample draw
     draws = [x for s in crs.made for x in s.log if x[0] == "choice"]
     if len(draws) != 1 or len(log) != 1:
